@@ -209,6 +209,13 @@ def run(ctx):
     for n in (16, 17, 19, 20, 22, 23, 30):
         for _ in range(2 if not thorough else 30):
             history(ctx, rng, n, 3 * n)
+    # "the attributes exposed after a refresh equal the reported values" through the WHOLE stack, with an older report
+    # pushed by the unit before the refresh (shared with C01): the answer to the refresh is what counts
+    if ctx.driver:
+        from props import c01
+        for version in (2, 3):
+            for _ in range(2 if not thorough else 20):
+                c01.stale_scenario(ctx, "refresh_after_stale_report", rng, version)
     for _ in range(500 if not thorough else 20000):
         one(ctx, "random", bytes(base_payload(rng)), style=rng.choice(["crc", "sum"]),
             ft=rng.choice([2, 3, 4, 5]))
